@@ -117,10 +117,16 @@ def run(res, tier, seed):
                 sc_ = 1e4 if fam == "klm" else 128.0
                 lines.append(dict(n=nn, year=y, doy=dd, ms=ms, prt=prt, ict=ict, space=space, words=l1b.const_words(fmt, 300),
                                   lats=[int(round(v * sc_)) for v in la], lons=[int(round(v * sc_)) for v in lo]))
+            swapped = None
+            if rng.random() < 0.3 and n > 12:
+                # two neighbouring records stored in reverse order (both survive the line-number sanitising)
+                j = rng.randrange(3, n - 3)
+                lines[j], lines[j + 1] = lines[j + 1], lines[j]
+                swapped = j
             data = l1b.build_file(fmt, sc, tg.dt_of(p["header"]), lines)
             hist = [rng.choice(OPS) for _ in range(rng.randint(1, 5))] + ["meta"]
             ctx = dict(fmt=fmt, spacecraft=sc, n=n, kind=kind, first=first, gaps=gaps, start=str(tg.dt_of(start)),
-                       adjust_clock_drift=drift, history=hist, seed=seed)
+                       adjust_clock_drift=drift, history=hist, seed=seed, records_swapped_at=swapped)
             kw = dict(tle_dir=tle_dir, tle_name=tle_name, tle_thresh=40000, adjust_clock_drift=drift)
             try:
                 r = impl.open_reader(fmt, data, **kw)
